@@ -174,6 +174,41 @@ def nested_lattice_decks(seed, n):
     return decks
 
 
+def like_lattice_decks(seed, n):
+    """A FILL=n lattice cell and a second lattice written LIKE n BUT U=m [FILL=k]: two lattices with the same unit
+    cell in two universes, each with its OWN --lattice ranges (and filling universe)."""
+    rng = random.Random(seed)
+    out = []
+    S = lambda k: ['S', k, 0]
+    for _ in range(n):
+        w = rng.choice([1, 2])
+        ndim = rng.choice([1, 2])
+
+        def ranges():
+            return [[rng.choice([-1, 0]), rng.choice([0, 1])], [rng.choice([-1, 0]), rng.choice([0, 1])]][:ndim]
+        r1, r2 = ranges(), ranges()
+        while r2 == r1:
+            r2 = ranges()
+        size = lambda r: (r[0][1] - r[0][0] + 1) * ((r[1][1] - r[1][0] + 1) if ndim == 2 else 1)
+        geom = ['*', S(-11), S(12)] + ([S(-13), S(14)] if ndim == 2 else [])
+        f2 = rng.choice([7, 8])
+        base = {'geom': geom, 'lat': 1, 'lvecs': [[4 * w, 0, 0], [0, 4 * w, 0]][:ndim], 'latopt': True}
+        but = ['u=3'] + (['fill=8'] if f2 == 8 else [])
+        rng.shuffle(but)
+        d = {'surfs': [{'n': 1, 'k': 'so', 'p': [7]}, {'n': 2, 'k': 'so', 'p': [12]},
+                       {'n': 11, 'k': 'px', 'p': [w]}, {'n': 12, 'k': 'px', 'p': [-w]},
+                       {'n': 13, 'k': 'py', 'p': [w]}, {'n': 14, 'k': 'py', 'p': [-w]},
+                       {'n': 21, 'k': 'pz', 'p': [0]}, {'n': 22, 'k': 'p', 'p': [1, 1, 0, 0]}],
+             'cells': [{'n': 1, 'geom': S(-1), 'fill': 1}, {'n': 2, 'geom': ['*', S(1), S(-2)], 'fill': 3},
+                       {'n': 3, 'geom': S(2), 'imp': 0},
+                       dict(base, n=10, u=1, fill=7, lranges=r1, lunivs=[7] * size(r1)),
+                       dict(base, n=20, u=3, fill=f2, lranges=r2, lunivs=[f2] * size(r2), like=10, but=but),
+                       {'n': 21, 'geom': S(-21), 'u': 7, 'mat': 1}, {'n': 22, 'geom': S(21), 'u': 7, 'mat': 2},
+                       {'n': 31, 'geom': S(-22), 'u': 8, 'mat': 2}, {'n': 32, 'geom': S(22), 'u': 8, 'mat': 3}]}
+        out.append(d)
+    return out
+
+
 def superfluous_lattice_option(chk, decks, thorough):
     """A --lattice option that names a lattice cell whose FILL array is on the card (ranges of the same total size,
     shifted or transposed): the deck says where the elements are, so the conversion either stays what it is or
@@ -229,6 +264,64 @@ def superfluous_lattice_option(chk, decks, thorough):
                                'point2': nd[tid]['pts'][k - 1] if k else None})
     chk.cov['traces_validated_against_impl'] += len(verdicts)
     chk.extra['superfluous_lattice_option'] = {'run': len(jobs), 'refused_with_diagnostic': nrefused, 'converted': len(good)}
+
+
+def element_transformation(chk, decks, thorough):
+    """A transformation written after a FILL ARRAY belongs to the entry it follows (here the last one): it moves that
+    lattice element only (McnpSem!ElemHasFtr).  The conversion either has exactly that meaning or is refused with a
+    diagnostic - the transformation is never applied to every element."""
+    from .. import conv, deckrun
+    rng = random.Random(chk.seed + 707)
+    TRS = [{'o': [1, 0, -1], 'm': list(adeck.IDM)}, {'o': [0, 1, 0], 'm': [0, 1, 0, -1, 0, 0, 0, 0, 1]},
+           {'o': [0, 0, 0], 'm': [-1, 0, 0, 0, -1, 0, 0, 0, 1]}]
+    jobs, nd = [], {}
+    for d in decks:
+        d = adeck.normalise(d)
+        lat = [c for c in d['cells'] if c['lat']]
+        if len(lat) != 1 or lat[0].get('latopt') or lat[0]['hasftr'] or not lat[0]['lranges'] or lat[0].get('like'):
+            continue
+        c = lat[0]
+        if c['lunivs'][-1] in (0, c['u']) and rng.random() < 0.8:
+            continue                      # mostly arrays whose last element holds another universe
+        c['hasftr'], c['ftr'] = True, rng.choice(TRS)
+        c['ftrspell'] = rng.choice(['12', 'star', 'num'] + (['3'] if c['ftr']['m'] == adeck.IDM else []))
+        adeck.simple_materials(d)
+        d['pts'] = adeck.grid_points(rng, 100, -11, 11)
+        tid = len(jobs) + 1
+        nd[tid] = d
+        jobs.append({'tid': tid, 'deck': d, 'opts': adeck.lattice_opts(d)})
+        if len(jobs) >= (400 if thorough else 60):
+            break
+    if not jobs:
+        return
+    records = conv.run_batch(deckrun.run_deck, jobs, chunksize=8)
+    good, nrefused = [], 0
+    for r in records:
+        if 'machinery_error' in r:
+            chk.machinery(r['machinery_error'])
+        elif r['result'] != 'ok':
+            if r['err'] and r['err']['diag']:
+                nrefused += 1
+            else:
+                chk.violation({'clause': 'crash', 'errtype': r['err']['type'] if r['err'] else None, 'where': r['err']['where'] if r['err'] else None,
+                               'features': 'element_transformation', 'moved': False},
+                              {'text': r['text'], 'opts': r['opts'], 'error': r['err'], 'deck': nd[r['tid']], 'clauses': 'owner'})
+        else:
+            good.append(r)
+    try:
+        verdicts = deckrun.validate(chk, good, nd, 'owner') if good else {}
+    except tlc.TLCFailure as exc:
+        chk.machinery(str(exc))
+        verdicts = {}
+    byid = {r['tid']: r for r in good}
+    for tid, v in sorted(verdicts.items()):
+        for kind, k in v['bad']:
+            if kind in KINDS:
+                chk.violation({'clause': kind, 'errtype': None, 'where': None, 'features': 'element_transformation', 'moved': False},
+                              {'text': byid[tid]['text'], 'opts': byid[tid]['opts'], 'deck': nd[tid], 'clauses': 'owner',
+                               'point2': nd[tid]['pts'][k - 1] if k else None})
+    chk.cov['traces_validated_against_impl'] += len(verdicts)
+    chk.extra['element_transformation'] = {'run': len(jobs), 'refused_with_diagnostic': nrefused, 'converted': len(good)}
 
 
 def _leaves(t):
@@ -292,6 +385,8 @@ def main(prop='C06', module='GenLat'):
     if module == 'GenLat':
         decks = decks + nested_lattice_decks(chk.seed + 66, 300 if thorough else 30)
         chk.extra['nested_lattice_decks'] = 300 if thorough else 30
+        decks = decks + like_lattice_decks(chk.seed + 67, 200 if thorough else 24)
+        chk.extra['like_lattice_decks'] = 200 if thorough else 24
     recs, verdicts, nd, meta = common_univ.run(
         chk, decks, 'owner,compo', chk.seed,
         lambda d, r: [adeck.lattice_opts(d) + [f for f in common_univ.FLAGS if r.random() < 0.3]],
@@ -317,6 +412,7 @@ def main(prop='C06', module='GenLat'):
                                 'clauses': 'owner,compo', 'point2': deck['pts'][k - 1] if k else None})
     chk.cov['distinct_nontrivial'] = nt
     superfluous_lattice_option(chk, decks, thorough)
+    element_transformation(chk, decks, thorough)
     if module == 'GenHex':
         core.lap('final-file validation')
         regular_hexagons(chk, decks, thorough)
